@@ -65,6 +65,7 @@ MUTABLE_FIELDS = [
     ("fmm.depth", [3, 4]),
     ("fmm.near_field_representation", ["evaluate", "sparse"]),
     ("fmm.dense_evaluation", [False, True]),
+    ("fmm.debug", [False, True]),
     ("assembly.always_promote_to_double", [False, True]),
 ]
 
